@@ -26,7 +26,7 @@ AUDIT_IMPORTS = ["HypatiaProofs.Properties.C04"]
 THEOREMS = ["Hyp.Query." + t for t in (
     "c04_budget_irrelevant", "c04_and", "c04_or", "c04_well_typed_succeeds", "c04_and_constructor",
     "c04_or_constructor", "c04_not_is_negate", "c04_complement_partial", "c04_negate_complement_partial",
-    "c04_notall_violates_complement", "c04_end_to_end", "c04_end_to_end_no_text", "c04_text_leaf",
+    "c04_notall_violates_complement", "c04_apply_is_sem_partial", "c04_end_to_end", "c04_end_to_end_no_text", "c04_text_leaf",
     "c04_apply_congruence", "c04_apply_leaves_only", "c04_and_end_to_end")]
 CASES = {"quick": 6000, "thorough": 150000}
 BUDGET_S = {"quick": 40, "thorough": 700}
